@@ -115,9 +115,22 @@ fn judge(rep: &mut Report, sc: &Scenario, main_bytes: &[(String, Vec<u8>)], lib_
         Err(e) => { detection_ok = false; rep.violation(format!("C15 get_specialized_methods refuses a well-formed jar: {}", template(e)), json!({"error": e, "input": input()})); }
         Ok(pairs) => {
             let by_bridge: BTreeMap<&(String, String, String), &(String, String, String)> = pairs.iter().map(|(b, s)| (b, s)).collect();
+            // several qualifying bridges of ONE class for ONE delegate are outside the quantifier ("at most one bridge per delegate and class"):
+            // which of them is recorded is open (the output side lets any one of them win, see oracle::allowed); at least one must be
+            let mut rivals: BTreeMap<(&str, &(String, String, String)), Vec<&oracle::Candidate>> = BTreeMap::new();
+            for c in &cands { if c.expect != Expect::MustNot { if let Some(s) = &c.spec { rivals.entry((c.class.as_str(), s)).or_default().push(c); } } }
+            rivals.retain(|_, v| v.len() >= 2);
+            for ((class, spec), v) in &rivals {
+                rep.count("open.detection.several_bridges_one_delegate_one_class");
+                if v.iter().any(|c| c.expect == Expect::Must) && !v.iter().any(|c| by_bridge.contains_key(&(c.class.clone(), c.name.clone(), c.desc.clone()))) {
+                    detection_ok = false;
+                    rep.violation("C15 detection: none of several bridges of one class for one delegate detected", json!({"class": class, "delegate": spec, "bridges": v.iter().map(|c| format!("{}{}", c.name, c.desc)).collect::<Vec<_>>(), "input": input()}));
+                }
+            }
             for c in &cands {
                 let key = (c.class.clone(), c.name.clone(), c.desc.clone());
                 let obs = by_bridge.get(&key);
+                if c.expect == Expect::Must && obs.is_none() && c.spec.as_ref().is_some_and(|s| rivals.contains_key(&(c.class.as_str(), s))) { rep.count("open.not_detected"); continue; }
                 let detail = |what: &str| json!({"what": what, "method": format!("{}.{}{}", c.class, c.name, c.desc), "oracle": c.why, "expected_delegate": c.spec, "observed_delegate": obs, "input": input()});
                 match (c.expect, obs) {
                     (Expect::Must, None) => { detection_ok = false; rep.violation(format!("C15 detection: bridge not detected ({})", c.why), detail("missing pair")); }
